@@ -1,4 +1,5 @@
 import Heph.Proofs.TransJavaBasic
+import Heph.Proofs.TransJavaBalProgram
 import Heph.Props.C14
 /-! # C02 — Java translations of valid programs compile with javac  (PARTIAL)
 
@@ -12,6 +13,9 @@ no Lean model of Java's static semantics.  What is logic is proved here, about
   ends in `_reset_state`, so a used translator is a fresh translator;
 * `javaText_shape` — package line, `class Main { static members }`, functional interfaces,
   then one text per top-level class declaration;
+* `javaText_balanced_partial` — parentheses, braces and square brackets of the emitted unit are
+  properly nested and all closed, for programs of the fragment `NodeOK` (the full statement
+  `javaText_balanced` is kept as a `def`);
 * `verdict_batch_independent` — the javac diagnostics analysis attributes to a file in a batch
   what it attributes to it alone (re-export of C14). -/
 namespace Heph.Props.C02
@@ -88,6 +92,70 @@ example : ∃ m mm ns os, translate ⟨[]⟩ "src.p" [.classDecl "A" 0 true [] [
     ∧ os.length = 1 := by
   obtain ⟨m, mm, ns, os, h1, h2⟩ := javaText_shape ⟨[]⟩ "src.p" [.classDecl "A" 0 true [] [] [] []]
   exact ⟨m, mm, ns, os, h1, by simpa [routed] using h2⟩
+
+/-! ## bracket balance
+
+`Balanced s` (`Proofs/TransJavaBal.lean`): a scanner with a stack of expected closers runs over
+the text, skipping every character that is not one of `( ) { } [ ]`, and ends with the empty
+stack.  Angle brackets are not part of the statement (`<`, `>` are also operators and `->`).
+Hypotheses on the atoms (`AtomsOK`, `EnvOK`): identifiers, literals and operator symbols contain
+none of the six characters (true of the generator's word pool, of numbers, of the operator table;
+a string or character literal containing a bracket is outside the theorem), parameter names are
+non-empty words, and every type that is printed has balanced printed forms (`TyOK`: names such as
+`Foo<Bar[], ? extends T>`). -/
+
+/-- FULL statement (not proved in full): for every program whose atoms are well formed and every
+context answering well-formed types, the emitted compilation unit is balanced. -/
+def javaText_balanced : Prop :=
+  ∀ (e : Env) (pkg : String) (decls : List Node), EnvOK e → BrFree pkg → AtomsOKL decls →
+    Balanced (translate e pkg decls)
+
+/-- PROVED PART: the statement for the fragment delimited by `NodeOK`
+(`Proofs/TransJavaBalVisit.lean`): top-level variable declarations, parameter / field / superclass
+headers, and the expression language made of constants (with number casts), variables (with `Main.`
+prefix and `_is` renaming), `null` with casts, binary operations, conditionals (all three
+`instanceof` smart-cast branches), `instanceof`, `new` (with diamond), field access, assignment and
+call arguments — for every context (no hypothesis on `e` is needed in the fragment), every fuel and
+the whole assembly of `visit_program` (package line, `class Main`, static members, functional
+interfaces, remaining declarations).  Missing for the full statement: the cases block (Function0
+lambda wrapping), function / lambda / class declarations, function references, array
+expressions and calls, which need `EnvOK` and the parameter-text lemmas (`paramText_ok`,
+`rsplit1L_word`, `lastWordL_word`, `neutral_replaceDots` are proved and wait for them). -/
+theorem javaText_balanced_partial (e : Env) (pkg : String) (decls : List Node) (hp : BrFree pkg)
+    (hd : NodesOK decls) : Balanced (translate e pkg decls) :=
+  (translateFrom_neutral e pkg St.init decls stOK_init hp hd).balanced
+
+/-- the same after any history of translations by the same translator object -/
+theorem javaText_balanced_history_partial (hist : List (Env × String × List Node)) (e : Env) (pkg : String)
+    (decls : List Node) (hp : BrFree pkg) (hd : NodesOK decls) :
+    Balanced (translateFrom e pkg (stateAfter hist) decls) := by
+  rw [java_history_independent]; exact javaText_balanced_partial e pkg decls hp hd
+
+theorem tyOK_boolean : TyOK tyBoolean := by
+  have h1 : ∀ bv bx, typeName tyBoolean bv bx = "Boolean" := by
+    intro bv bx; cases bv <;> cases bx <;> simp [tyBoolean, typeName, clsVoid, boxedOf]
+  have h2 : Ty.getName tyBoolean = "Boolean" := by simp [tyBoolean, Ty.getName]
+  constructor
+  · intro bv bx; rw [h1]; exact BrFree.neutral (by decide)
+  · rw [h2]; exact BrFree.neutral (by decide)
+  · decide
+  · show Neutral (Ty.getName tyBoolean); rw [h2]; exact BrFree.neutral (by decide)
+
+instance (s : String) : Decidable (Balanced s) := inferInstanceAs (Decidable (scan [] s.toList = some []))
+
+/-- the hypotheses are met by a non-trivial program:
+`final Boolean x = ((y instanceof Boolean y_is) ? (y == true) : (Boolean) null);` -/
+example : Balanced (translate ⟨[]⟩ "src.p"
+    [.varDecl "x" (.cond (.isE (.variable "y") tyBoolean false)
+        (.binop "eq" (.variable "y") (.boolC "true") "==") (.bottom (some tyBoolean)) none) true none (some tyBoolean)]) := by
+  apply javaText_balanced_partial
+  · decide
+  · simp only [NodesOK, NodeOK, TyOKO, and_true]
+    exact ⟨by decide, ⟨⟨by decide, tyOK_boolean⟩, ⟨by decide, by decide, by decide⟩, tyOK_boolean⟩, tyOK_boolean⟩
+
+/-- the scanner does reject: an unclosed parenthesis, a wrong closer, a closer without opener -/
+example : ¬ Balanced "f(a[0]" ∧ ¬ Balanced "f(a[0)]" ∧ ¬ Balanced "}" ∧ Balanced "f(a[0], () -> { g(); })" := by
+  decide
 
 /-! ## batching -/
 
